@@ -127,6 +127,22 @@ CHECKS = {
              'Skolem witnesses. Mesh functions: bounded only (labelled in evidence).',
         technique='AST-generated verification conditions over the real source with existential witnesses (QUANT-SKOLEM), z3; exhaustive native enumeration up to 4x4',
         design_ref='Part III C07'),
+    'C06': dict(
+        category='proof',
+        text='For 11 grid configurations (CF 1-D with stored bounds as variables / coordinates / plain variables and with '
+             'midpoint synthesis, CF 2-D and SHOC simple with stored bounds, SHOC standard; coordinates held either way) and '
+             '10 mesh encodings (0/1-based, _FillValue / NaN / no fill, transposed, up to hexagons, coordinates as coords) the real '
+             '_make_polygons / make_polygons_with_holes / _to_index_array / _get_or_make_bounds bodies are executed with '
+             'symbolic extents and contents: at a Skolem cell n the slot is empty iff a coordinate of that cell is '
+             'non-finite, otherwise its vertices are exactly the corners of cell n in order (midpoint formula included); '
+             'Convention.polygons drops exactly the invalid polygons with an InvalidPolygonWarning, keeps slots, makes the '
+             'array read-only; mask[n] <=> polygon. The CF 2-D neighbour-average synthesis and the extent (bounds / '
+             'geometry = bbox / union) are carried by the bounded native stand-in; the extent override is a known finding.',
+        note=TRUST + 'Assumed: A-REAL (midpoints), NP-STACK / BROADCAST / TRANSPOSE / RESHAPE / FLATNONZERO / FANCY-INDEX / MA-*, '
+             'SH-POLYGONS-OUT, SH-IS-VALID (uninterpreted), SELECTION-THEORY, contract of Mesh2DTopology.sensible_fill_value; '
+             'VALID-UGRID-MESH. shapely validity / union themselves: bounded only.',
+        technique='AST-generated verification conditions over the real source at Skolem cells (functional arrays, selection theory), z3; bounded native oracle comparison',
+        design_ref='Part III C06'),
 }
 
 NOT_YET = 'check not built yet (work in progress, see DESIGN.md)'
